@@ -115,6 +115,8 @@ class PathWorld:
     def _anchor(self, anc):
         if anc["kind"] == "none":
             return None
+        if anc.get("ref") and self.k.identity:
+            return self.obj[anc["ref"]].position                                               # live view
         v = self.k.pos(np.array(anc["v"], dtype=float))
         if anc["scalar"]:
             if self.k.identity and anc["v"][0] == [0, 0, 0]:
@@ -131,11 +133,15 @@ class PathWorld:
         try:
             if c.get("bad"):
                 self._bad(o, c)
+            elif op == "move" and c["inp"].get("ref") and self.k.identity:
+                o.move(self.obj[c["inp"]["ref"]].position, start=self._start(c["start"]))           # the live view of another object's path
             elif op == "move":
                 d = self.k.lam * self.k.RG.apply(np.array(c["inp"]["v"], dtype=float))
                 o.move(d[0] if c["inp"]["scalar"] else d, start=self._start(c["start"]))
             elif op == "rotate":
                 self._rotate(o, self._rot_input(c["inp"]), self._anchor(c["anc"]), self._start(c["start"]), form)
+            elif op == "setpos" and c["inp"].get("ref") and self.k.identity:
+                o.position = self.obj[c["inp"]["ref"]].position
             elif op == "setpos":
                 v = self.k.pos(np.array(c["inp"]["v"], dtype=float))
                 o.position = v[0] if len(v) == 1 and c.get("squeeze1") else v
@@ -297,6 +303,22 @@ def step(w, st, c, tid, all_forms=True, pick=None, field=False):
     return rec
 
 
+def ref_calls(st, t):
+    """state-dependent calls of MC_Compound!RefCallsOn: inputs that are the position path of an object of the tree"""
+    none = {"kind": "none", "scalar": True, "v": []}
+    auto = {"auto": True, "v": 0}
+    out = []
+    for r in st["kids"]:
+        pos = st["path"][r]["pos"]
+        inp = {"scalar": len(pos) == 1, "v": pos, "ref": r}
+        out.append({"op": "move", "o": t, "inp": inp, "anc": none, "start": auto, "bad": ""})
+        out.append({"op": "move", "o": t, "inp": inp, "anc": none, "start": {"auto": False, "v": 0}, "bad": ""})
+        out.append({"op": "rotate", "o": t, "inp": {"scalar": True, "v": [[[0, -1, 0], [1, 0, 0], [0, 0, 1]]]},
+                    "anc": {"kind": "vec", "scalar": len(pos) == 1, "v": pos, "ref": r}, "start": auto, "bad": ""})
+        out.append({"op": "setpos", "o": t, "inp": {"scalar": False, "v": pos, "ref": r}, "anc": none, "start": auto, "bad": ""})
+    return out
+
+
 def replay_states(args):
     """Worker: all calls from every given abstract state (kappa from the job description)."""
     states, calls, kids, kappa_salt, path, tid0, with_bad = args[:7]
@@ -321,7 +343,10 @@ def replay_states(args):
             if not kids:
                 w = world(st["kids"])
             targets = list(st["kids"]) if opts.get("all_targets") else [None]
-            for ci, c in enumerate(dict(c0, o=t) if t else c0 for t in targets for c0 in calls):
+            todo = [dict(c0, o=t) if t else c0 for t in targets for c0 in calls]
+            if opts.get("ref_calls"):
+                todo += [c for t in targets for c in ref_calls(st, t)]
+            for ci, c in enumerate(todo):
                 rec = step(w, st, c, tid0 + n, all_forms=all_forms, pick=si + ci, field=opts.get("field", False))
                 if rec is None:
                     continue
